@@ -342,10 +342,11 @@ def main(repo, out, work):
     # (4) where the delivered objectives come from and the echo: step skeletons from the (uninstantiated) template bodies
     tu5 = os.path.join(work, 'objfilter_flat.cc')
     open(tu5, 'w').write(TU_FLAT)
-    for filt, nm, sel, must in (('ConvertStandardItems', 'skel_Flattener_objective_loop', 'Convert', None),
-                                ('PushObjectivesTo', 'skel_FlatModel_PushObjectivesTo', None, 'SetLinearObjective'),
-                                ('WriteSolFile', 'skel_WriteSolFile_objno', 'objno', None)):
-        docs = clang_dump(tu5, filt, [os.path.join(repo, 'include')])
+    for cfilt, filt, nm, sel, must in (('ConvertStandardItems', 'ConvertStandardItems', 'skel_Flattener_objective_loop', 'Convert', None),
+                                       ('ProblemFlattener::Convert', 'Convert', 'skel_Flattener_Convert_objective', None, 'AddObjective'),
+                                       ('PushObjectivesTo', 'PushObjectivesTo', 'skel_FlatModel_PushObjectivesTo', None, 'SetLinearObjective'),
+                                       ('WriteSolFile', 'WriteSolFile', 'skel_WriteSolFile_objno', 'objno', None)):
+        docs = clang_dump(tu5, cfilt, [os.path.join(repo, 'include')])
         for dd in docs:
             prune_comments(dd)
         bodies = [b for dd in docs for b in find_nodes(dd, lambda n: n.get('kind') in ('CXXMethodDecl', 'FunctionDecl') and n.get('name') == filt
